@@ -22,6 +22,7 @@ PROOFS = ["theories/Props/C13.vo", "theories/Sni/WireLegacy.vo"]
 STATEMENT_FILES = ["theories/Props/C13.v", "theories/Sni/WireGen.v", "theories/Sni/WireLegacy.v"]
 
 ERRCODE = {"ok": 0, "eof": 1, "tail": 2, "toolong": 3}
+SHAPES = {"one": 1, "half": 2, "dataerr": 3, "zero": 4, "chunk7": 5, "one+dataerr": 6}
 
 
 def segs(ss):
@@ -77,6 +78,16 @@ def to_coq(c):
     if op == "encreply":
         return "CEncReply %s %d %d %s %s %s" % (c["id"], c["typ"], c["ec"], coq_str(c["name"]),
                                                values(c.get("fields")), segs(o.get("bytes")))
+    shape = SHAPES.get(c.get("shape") or "", 0)
+    if op == "dec" and shape and seglen(c.get("input")) <= 4000:
+        # the reader behaviour is part of the case: evaluated on the reader-based model
+        return "CDecS %d %s %d %s %s %d %d %s %d" % (
+            shape, coq_str(c["name"]), c["cap"], "true" if c["end"] else "false", segs(c.get("input")),
+            obs_err(o), o.get("count", 0), values(o.get("fields")), o.get("alloc", 0))
+    if op == "start" and shape and seglen(c.get("input")) <= 4000:
+        return "CStartS %d %s %d %s %d %s %s %d" % (
+            shape, segs(c.get("input")), obs_err(o), o.get("id") or "0", o.get("typ", 0),
+            coq_str(o.get("name", "")), values(o.get("fields")), o.get("alloc", 0))
     if op == "dec":
         return "CDec %s %d %s %s %d %d %s %d" % (
             coq_str(c["name"]), c["cap"], "true" if c["end"] else "false", segs(c.get("input")),
@@ -241,8 +252,10 @@ def explore(ck, binp, seed, ncases, model_ok, first):
                                    json.dumps(c.get("rsent")), c.get("cut")),
                  trivial=trivial)
         why = impl_oracle(c)
+        if why and c.get("shape"):
+            why += " (reader behaviour: %s)" % c["shape"]
         if why:
-            ck.violation("impl:%s:%s" % (c["stream"], why.split(":")[0]), why,
+            ck.violation("impl:%s:%s" % (c["stream"], why.split(":")[0].split(" (reader")[0]), why,
                          {"case": c, "expected": "error value without crash, allocation proportional to input",
                           "observed": c["obs"]})
     if first:
@@ -258,7 +271,7 @@ def explore(ck, binp, seed, ncases, model_ok, first):
         for s in range(0, len(cases), shard):
             part = cases[s:s + shard]
             txt = ("From Coq Require Import List NArith ZArith String.\n"
-                   "From Verif Require Import Lib.Bytes Sni.Wire Sni.WireCorr.\n"
+                   "From Verif Require Import Lib.Bytes Sni.Wire Sni.WireChunks Sni.WireReader Sni.WireCorr.\n"
                    "Import ListNotations.\nLocal Open Scope N_scope.\nLocal Open Scope string_scope.\n"
                    "Definition cases : list ccase := [\n  "
                    + ";\n  ".join(to_coq(c) for c in part) + "\n].\n"
